@@ -329,7 +329,8 @@ class VfFailCommand(Command):
 
     async def execute(self, job: Job) -> CommandOutput:
         rec = dict(start=H.tick(), end=None, outcome=None, out=None, n=H.exec_count(job.name) + 1,
-                   wfkey=H.wfkey(self.step.workflow))
+                   wfkey=H.wfkey(self.step.workflow),
+                   in_tag=get_tag(job.inputs.values()) if job.inputs else None)
         H.execs.setdefault(job.name, []).append(rec)
         H.events.append(dict(t=rec["start"], ev="exec_start", job=job.name, n=rec["n"]))
         Sched.inflight += 1
